@@ -198,6 +198,13 @@ def check(repo, rep):
     vc = cx.cls('core', '_SecondsView')
     vf = cx.model.find_method('core', vc, '__getitem__')
     rf = region_field(cx, '_SecondsView')
+    if rf is not None:
+        # a view belongs to ONE region for its whole life: the field holding the region is assigned when the view is built and never
+        # again (a view object shared between regions and re-pointed on access answers for whichever region was looked at last)
+        for vcls_ in ('_SecondsView', '_MillisView'):
+            for d_ in cx.field_defs('core', vcls_).get(rf, []):
+                rep.ob('a time view is bound to its region once, at construction (it is not re-pointed later)', d_['method'] == '__init__', W(d_['node']), '%s.%s:region-rebound' % (vcls_, d_['method']),
+                       'self.%s is assigned in %s' % (rf, d_['method']), sample=dict(view=vcls_, field=rf, assigned_in=d_['method']))
     sv = []
     if rf is None:
         # a view that keeps only a weak reference to its region stops working once the region is collected
